@@ -22,14 +22,16 @@ import vcheck as V
 import _scan as S
 
 
-def scan_stage(ctx, zr, name, eng, policy, args, stats, samples, expect=None):
-    """Run scansim + validate.  expect: id of the known finding this (isolate) stage is
+def scan_stage(ctx, zr, name, eng, policy, args, stats, samples, expect=None, driver="scansim", cfg="ZScanTrace.cfg",
+               parts=4, timeout=1500):
+    """Run a scan driver + validate.  expect: id of the known finding this (isolate) stage is
     meant to trigger - then the stage must produce it."""
-    summ, files = S.drive(ctx, zr, "scansim", name, ["-eng", eng, "-policy", policy, "-seed", str(ctx.seed)] + args)
+    dargs = ["-eng", eng, "-seed", str(ctx.seed)] + (["-policy", policy] if driver == "scansim" else []) + args
+    summ, files = S.drive(ctx, zr, driver, name, dargs, parts=parts)
     if summ is None:
         return
     got = 0
-    for f, events, mm in S.validate(ctx, "ZScanTrace", "ZScanTrace.cfg", files, name):
+    for f, events, mm in S.validate(ctx, "ZScanTrace", cfg, files, name, timeout=timeout):
         stats["events"] += len(events)
         stats["segments"] += sum(1 for e in events if e.get("ev") == "reset")
         stats["iterations"] += sum(1 for e in events if e.get("ev") == "begin")
@@ -40,6 +42,10 @@ def scan_stage(ctx, zr, name, eng, policy, args, stats, samples, expect=None):
             s0, seg = V.segment_of(events, line)
             sig = S.scan_signature(eng, policy, seg)
             b = [x for x in seg if x.get("ev") == "begin"][-1:] or [{}]
+            if len(json.dumps(seg[-1])) > 2000:     # big-COUNT pages: keep the report readable
+                seg = seg[:-1] + [dict(seg[-1], els=seg[-1]["els"][:3] + ["...%d elements" % len(seg[-1]["els"])])]
+                b = [dict(b[0], pop="1..%d" % len(b[0].get("pop", [])), m="all")]
+                seg = [x if x.get("ev") != "begin" else dict(x, pop="...", m="...") for x in seg]
             txt = "%s/%s: %s line %d: iteration %s, observed %s; ZScan expects %s" % (
                 eng, policy, os.path.basename(f), line, json.dumps(b[0], sort_keys=True)[:300],
                 json.dumps(seg[-1], sort_keys=True)[:300], what[:300])
@@ -49,7 +55,7 @@ def scan_stage(ctx, zr, name, eng, policy, args, stats, samples, expect=None):
             V.write_ndjson(segf, [seg[0]] + seg[k:])
             stats["mismatches"] += 1
             got += 1
-            V.report_failure(ctx, sig, txt, files=[segf], script={"scansim": args, "engine": eng, "policy": policy})
+            V.report_failure(ctx, sig, txt, files=[segf], script={driver: args, "engine": eng, "policy": policy})
     if expect and got == 0:
         ctx.notes.append("isolate stage %s produced no failure: known finding %s may be fixed" % (name, expect))
     stats["runs"].append({"stage": name, **{k: summ[k] for k in summ if k not in ("driver",)}})
@@ -135,6 +141,20 @@ def run(ctx):
         scan_stage(ctx, zr, "mem-compact", "mem", "compact", ["-segments", segs, "-long", "8000", "-revempty=false"], stats, samples)
         for p in range(8):
             scan_stage(ctx, zr, "pebble-pool%d" % p, "pebble", "local", ["-segments", "6", "-pool", str(p)], stats, samples)
+    # the server-side merge over several partitions: a real server with 3 single-replica partitions in the
+    # driver's process; every merged iteration is decomposed into one iteration per partition
+    norev = [] if not V.match_known("C13", {"driver": "mergesim", "rev": True, "no_count": True}) else ["-nocount-rev=false"]
+    scan_stage(ctx, zr, "merge-3part", "pebble", "local", ["-segments", "3" if q else "12", "-P", "3"] + norev, stats, samples,
+               driver="mergesim", cfg="ZScanTraceMerge.cfg", parts=2)
+    if norev:
+        scan_stage(ctx, zr, "isolate-merge-nocount-rev", "pebble", "local", ["-segments", "1", "-P", "3"], stats, samples,
+                   expect="C13-merge-revscan-no-count", driver="mergesim", cfg="ZScanTraceMerge.cfg", parts=1)
+    if not q:
+        scan_stage(ctx, zr, "merge-5part", "pebble", "local", ["-segments", "4", "-P", "5"] + norev, stats, samples,
+                   driver="mergesim", cfg="ZScanTraceMerge.cfg", parts=2)
+        # COUNT around the store's batch limit on a collection above it (slow in TLC: thorough only)
+        scan_stage(ctx, zr, "isolate-bigcount", "pebble", "local", ["-bigcount", "5203"], stats, samples,
+                   expect="C13-count-above-batch-limit", cfg="ZScanTraceBig.cfg", parts=1, timeout=2400)
     # isolate stages: produce each recorded finding's trigger on purpose
     if not plain:
         scan_stage(ctx, zr, "isolate-plainscan", "pebble", "local", ["-segments", "3", "-spaces", "1", "-conc", "3", "-thin", "3", "-plainscan", "-collonly"],
@@ -165,10 +185,13 @@ def run(ctx):
         checker_cmd="tlc -config ZScanTrace.cfg ZScanTrace (ZR_TRACE=<part>)",
     )
     V.write_evidence(ctx, "model_checking", cov, assumptions=[
-        "node-level handlers (cursor computation, table trimming) on a bare KVNode over a real store; the server-side "
-        "merge of several partitions (server/scan_merge.go) is not driven",
-        "MATCH: only '*'-prefixed ASCII suffix patterns (SCAN/ADVSCAN apply the pattern to 'table:key', so a pattern "
-        "anchored at the start of the key never matches - ambiguous in the documentation, not judged); patterns that "
+        "node-level handlers (cursor computation, table trimming) on a bare KVNode over a real store, plus the server-side "
+        "merge (server/scan_merge.go) on a real server with 3 (thorough: also 5) single-replica partitions in one process; "
+        "order across partitions is undefined, so a merged iteration is judged per partition (keys attributed with the "
+        "routing function node.GetHashedPartitionID, per-partition cursors read out of the merged cursor)",
+        "MATCH: '*'-prefixed suffix patterns everywhere, plus anchored patterns (literal prefix, a key equal to the prefix, "
+        "'?', character classes, wildcards in the middle); SCAN/ADVSCAN apply a pattern to 'table:key' (as the server's own "
+        "tests do), so for key spaces the driver sends table + ':' + pattern and only for plain ASCII table names; patterns that "
         "are not valid UTF-8 are refused by the glob library (an error, not a wrong subset); patterns with a 0x00 byte "
         "are part of the corpus: the first page must be an error reply without elements, or the iteration must return "
         "exactly the matching subset",
